@@ -83,7 +83,16 @@ class Owner:
         elif mode == "thumbprint":
             kid = rk_.thumbprint(k)
         else:
-            kid = "key-%d" % self.counter
+            # kids are arbitrary strings: non-ASCII ones, and the empty string (at most one key of a set can carry it)
+            x = self.rng.random()
+            if x < 0.12:
+                kid = "cl\u00e9-%d" % self.counter
+            elif x < 0.2:
+                kid = "\u043a\u043b\u044e\u0447-%d" % self.counter
+            elif x < 0.26 and all(o.kid != "" for o in self.keys) and "" not in self.retired_kids:
+                kid = ""
+            else:
+                kid = "key-%d" % self.counter
         return RKey(k.kty, k.crv, k.pub, k.priv, None, {"kid": kid}), mode
 
     def rebuild(self, in_place=False):
@@ -185,7 +194,7 @@ def _world(rng, tier, index, res, tr, ch):
         tr.add("rotate", owner.version, [k.kid for k in owner.keys])
         # history invariant: every key of every set has a kid; export preserves every key
         kids = [k.get("kid") for k in doc["keys"]]
-        if any(not isinstance(x, str) or not x for x in kids) or len(doc["keys"]) != len(owner.keys):
+        if any(not isinstance(x, str) for x in kids) or len(doc["keys"]) != len(owner.keys):
             viol("export:key-without-kid-or-lost", "published set %r does not carry every key with a kid" % kids, snapshot())
         for want, got in zip(owner.keys, doc["keys"]):
             try:
@@ -284,7 +293,7 @@ def _world(rng, tier, index, res, tr, ch):
             ch.force = None
             offered = ch.calls[-1] if ch.calls else []
             want = sorted(k.kid for k in same_kty)
-            got = sorted(getattr(j, "kid", None) or "?" for j in offered)
+            got = sorted("?" if getattr(j, "kid", None) is None else j.kid for j in offered)
             res.fired("random-choice-forced")
             if got != want:
                 viol("produce-jws:candidates", "random pick was offered %r, the keys of the required type are %r" % (got, want), repro)
@@ -553,7 +562,7 @@ def _world(rng, tier, index, res, tr, ch):
             ch.force = None
             offered = ch.calls[-1] if ch.calls else []
             want = sorted(k.kid for k in pool)
-            got = sorted(getattr(j, "kid", None) or "?" for j in offered)
+            got = sorted("?" if getattr(j, "kid", None) is None else j.kid for j in offered)
             res.fired("random-choice-forced")
             if got != want:
                 viol("produce-jwe:candidates", "random pick was offered %r, keys of the required types are %r" % (got, want), repro)
